@@ -1,7 +1,7 @@
 """C15 Link layer data delivery is reliable, ordered and exactly-once (SN/NESN structure)."""
 from .lib.match import *
 
-SELECT = r'^bluetoe::link_layer::ll_data_pdu_buffer::'
+SELECT = r'^bluetoe::link_layer::ll_data_pdu_buffer::|^bluetoe::link_layer::pdu_ring_buffer::alloc_front$'
 UNITS = lambda u: u in ('w_inst_ll',) or u.startswith('t_link_layer')
 BUF = 'bluetoe::link_layer::ll_data_pdu_buffer::'
 META = {
@@ -26,6 +26,30 @@ def run(chk, facts, tier):
     chk.rule('nesn-on-every-tx', 'every return of next_transmit() goes through set_next_expected_sequence_number(), which writes the NESN bit from next_expected_sequence_number_', floor=3)
     chk.rule('ack-processed', 'received() and acknowledge(read_buffer) process the peer\'s NESN (acknowledge(header & nesn_flag)) and answer with next_transmit()', floor=2)
 
+    chk.rule('ring-alloc-keeps-gap', 'pdu_ring_buffer::alloc_front: a region that ends at the read pointer end_ is granted only for size < distance (strict: front_ == end_ means empty), a region that ends at the end of the storage for size <= distance', floor=2)
+    for fn in variants(facts, 'bluetoe::link_layer::pdu_ring_buffer::alloc_front', chk):
+        size = fn.params[1]['n']
+        n = 0
+        for r in fn.returns():
+            il = next((x for x in (ret_value(r).walk() if ret_value(r) is not None else []) if (x.k == 'InitListExpr' or x.d.get('ctor')) and len(x.c) == 2), None)
+            if il is None or len(il.c) != 2 or cval(il.c[1]) == 0:
+                continue
+            n += 1
+            ats = guard_atoms(fn, r)
+            ok = False
+            why = 'no size test dominates this allocation'
+            found = []
+            for l, op, rr in ats:
+                if isinstance(rr, int) or not is_name(l, size) or op not in ('<', '<='):
+                    continue
+                b = as_binop(rr)
+                if b and b[0] == '-' and strip_casts(b[1]).k in REF_KINDS:
+                    found.append((strip_casts(b[1]).n, op))
+            if found:
+                ok = all(op == '<' for lim, op in found if lim == 'end_')
+                why = '' if ok else 'an allocation may reach the read pointer end_ exactly: front_ == end_ then reads as "empty" and every queued PDU is lost'
+            chk.instance('ring-alloc-keeps-gap', fn, 'return %s' % r.text()[7:50], ok, '' if ok else why, node=r, key='alloc ' + il.c[0].text())
+        chk.require(n >= 3 or fn.kind != 'pattern', 'alloc_front: expected three allocating returns')
     SN, NESN = 'sequence_number_', 'next_expected_sequence_number_'
     variants(facts, BUF + 'received', chk)
     variants(facts, BUF + 'next_transmit', chk)
